@@ -5,4 +5,5 @@ let () =
   | _ :: "cov" :: _ -> Covmain.run ()
   | _ :: "cmp" :: _ -> Cmpmain.run ()
   | _ :: "run" :: _ -> Runmain.run ()
+  | _ :: "den" :: _ -> Runmain.run ~spec:true ()
   | _ -> prerr_endline "usage: zwmodel int [--spec] | cov"; exit 2
